@@ -1,12 +1,15 @@
 (* C13_Special.v — the model of GetCertificates over a LARGER alphabet of directory
-   trees than the one the property quantifies over: besides regular files,
+   trees than the one the property's quantifier lists: besides regular files,
    directories and symbolic links a tree may hold "other" files (FIFOs, sockets,
-   devices). The test the Go code applies to an entry is
-       file.IsDir() || file.Type()&fs.ModeSymlink != 0      (truststore.go:98)
-   and everything that passes it is handed to ReadCertificateFile; over the
-   three-kind alphabet of C13_Model "passes" and "is a regular file" coincide,
-   here they do not. Definitions, proofs, and the case type of the harness
-   (base cases and cases over the larger alphabet in one list).               *)
+   devices). Two variants of the loop over the entries:
+     [xload_entries]     the code as it is now (after fix 351e8a6): an entry is refused
+                         unless   file.Type().IsRegular()          (truststore.go:99)
+     [xload_entries_v0]  the code before that fix: an entry was refused only if
+                         file.IsDir() || file.Type()&fs.ModeSymlink != 0
+                         and everything else was handed to ReadCertificateFile.
+   Over the three-kind alphabet of C13_Model the two tests coincide; here they do
+   not. Definitions, proofs, and the case type of the harness (base cases and
+   cases over the larger alphabet in one list).                               *)
 From NV Require Import Base Regex Generated C13_Model C13_Proofs.
 Open Scope string_scope.
 Open Scope list_scope.
@@ -16,7 +19,7 @@ Inductive xnode :=
 | XDir (es : list (string * xnode))
 | XLink (t : option xnode)
 | XOther (c : content).                    (* FIFO, socket, device; c = what ReadCertificateFile
-                                              answers when it opens and reads it *)
+                                              would answer if it opened and read it *)
 
 Fixpoint xfollow (n : xnode) : option xnode :=
   match n with
@@ -48,9 +51,28 @@ Fixpoint xlstat (d : xnode) (p : list string) : xlres :=
       end
   end.
 
-(* the loop of GetCertificates: the only entries refused for their kind are
-   directories and symbolic links *)
+(* the loop of GetCertificates as it is now: only regular files are read *)
 Fixpoint xload_entries (tsa : bool) (es : list (string * xnode)) (acc : list cert) : res :=
+  match es with
+  | [] =>
+      match acc with
+      | [] => Failed ECertificate KEmpty ""
+      | _ => Loaded acc
+      end
+  | (nm, n) :: es' =>
+      match n with
+      | XDir _ | XLink _ | XOther _ => Failed ECertificate KEntryKind nm     (* !file.Type().IsRegular() *)
+      | XFile CErr => Failed ECertificate KRead nm
+      | XFile (CCerts cs) =>
+          if negb (validate_certificates cs) then Failed ECertificate KValidate nm
+          else if tsa && negb (forallb is_root_ca cs) then Failed ECertificate KNotRoot nm
+          else xload_entries tsa es' (acc ++ cs)
+      end
+  end.
+
+(* the loop before fix 351e8a6: the only entries refused for their kind were
+   directories and symbolic links *)
+Fixpoint xload_entries_v0 (tsa : bool) (es : list (string * xnode)) (acc : list cert) : res :=
   match es with
   | [] =>
       match acc with
@@ -64,11 +86,12 @@ Fixpoint xload_entries (tsa : bool) (es : list (string * xnode)) (acc : list cer
       | XFile (CCerts cs) | XOther (CCerts cs) =>
           if negb (validate_certificates cs) then Failed ECertificate KValidate nm
           else if tsa && negb (forallb is_root_ca cs) then Failed ECertificate KNotRoot nm
-          else xload_entries tsa es' (acc ++ cs)
+          else xload_entries_v0 tsa es' (acc ++ cs)
       end
   end.
 
-Definition xget_certificates (root : xnode) (ty name : string) : res :=
+Definition xget_with (ld : bool -> list (string * xnode) -> list cert -> res)
+           (root : xnode) (ty name : string) : res :=
   if negb (is_valid_store_type ty) then Failed ETrustStore KType ""
   else if negb (is_valid_file_name name) then Failed ETrustStore KName ""
   else
@@ -78,10 +101,36 @@ Definition xget_certificates (root : xnode) (ty name : string) : res :=
         match xlstat root p with
         | XLNotExist => Failed ETrustStore KNotExist ""
         | XLOther => Failed ETrustStore KAccess ""
-        | XLNode (XDir es) => xload_entries (is_tsa ty) es []
+        | XLNode (XDir es) => ld (is_tsa ty) es []
         | XLNode _ => Failed ETrustStore KNotDir ""      (* mode.IsDir() is false for every other kind *)
         end
     end.
+
+Definition xget_certificates := xget_with xload_entries.          (* the code now *)
+Definition xget_certificates_v0 := xget_with xload_entries_v0.    (* before 351e8a6 *)
+
+Lemma xget_valid ld root ty name :
+  known_type ty -> plain_name name ->
+  xget_with ld root ty name =
+  match xlstat root (store_path ty name) with
+  | XLNotExist => Failed ETrustStore KNotExist ""
+  | XLOther => Failed ETrustStore KAccess ""
+  | XLNode (XDir es) => ld (is_tsa ty) es []
+  | XLNode _ => Failed ETrustStore KNotDir ""
+  end.
+Proof.
+  intros Ht Hn. unfold xget_with.
+  apply is_valid_store_type_spec in Ht as Ht'. apply is_valid_file_name_spec in Hn as Hn'.
+  rewrite Ht', Hn'. cbn [negb]. now rewrite sys_path_valid.
+Qed.
+
+Lemma xget_invalid ld root ty name :
+  is_valid_store_type ty && is_valid_file_name name = false ->
+  exists k, xget_with ld root ty name = Failed ETrustStore k "".
+Proof.
+  unfold xget_with. destruct (is_valid_store_type ty); cbn; [|eauto].
+  destruct (is_valid_file_name name); cbn; [discriminate | eauto].
+Qed.
 
 (* ---------- erasure: every "other" file replaced by a regular file of the same content ---------- *)
 
@@ -106,9 +155,7 @@ Fixpoint erase_entries (l : list (string * xnode)) : list (string * node) :=
   end.
 
 Lemma erase_dir es : erase (XDir es) = NDir (erase_entries es).
-Proof.
-  reflexivity.
-Qed.
+Proof. reflexivity. Qed.
 
 Definition erase_lres (r : xlres) : lres :=
   match r with
@@ -133,6 +180,7 @@ Proof.
   destruct (String.eqb k k'); [reflexivity | exact IH].
 Qed.
 
+(* path resolution does not distinguish an other file from a regular one *)
 Lemma lstat_erase p : forall d, lstat (erase d) p = erase_lres (xlstat d p).
 Proof.
   induction p as [|c p IH]; intros d; [reflexivity|].
@@ -142,34 +190,44 @@ Proof.
   - destruct t as [m|]; reflexivity.
 Qed.
 
-Lemma load_erase tsa es : forall acc,
-  load_entries tsa (erase_entries es) acc = xload_entries tsa es acc.
+Lemma lstat_erase_dir root p es' :
+  lstat (erase root) p = LNode (NDir es') <->
+  exists es, xlstat root p = XLNode (XDir es) /\ es' = erase_entries es.
+Proof.
+  rewrite lstat_erase. split.
+  - destruct (xlstat root p) as [| |[c|es|[t|]|c]]; cbn [erase_lres]; try rewrite erase_dir; cbn [erase];
+      try discriminate. intros E. inversion E. eauto.
+  - intros (es & -> & ->). cbn [erase_lres]. now rewrite erase_dir.
+Qed.
+
+(* ========== the code as it is now ========== *)
+
+(* an entry of the store as the present loop sees it: an other file is refused
+   for its kind exactly like a (dangling) link; the rest as in [erase] *)
+Definition strict_node (m : xnode) : node :=
+  match m with
+  | XOther _ => NLink None
+  | _ => erase m
+  end.
+
+Fixpoint strict_entries (l : list (string * xnode)) : list (string * node) :=
+  match l with
+  | [] => []
+  | (k, m) :: l' => (k, strict_node m) :: strict_entries l'
+  end.
+
+Lemma load_strict tsa es : forall acc,
+  load_entries tsa (strict_entries es) acc = xload_entries tsa es acc.
 Proof.
   induction es as [|[nm n] es IH]; intros acc; [reflexivity|].
-  cbn [erase_entries]. destruct n as [[|cs]|es0|[m|]|[|cs]];
-    try rewrite erase_dir; cbn [erase load_entries xload_entries]; try reflexivity;
-    (destruct (negb (validate_certificates cs)); [reflexivity|];
-     destruct (tsa && negb (forallb is_root_ca cs)); [reflexivity|]; apply IH).
+  cbn [strict_entries]. destruct n as [[|cs]|es0|[m|]|c]; unfold strict_node;
+    try rewrite erase_dir; cbn [erase load_entries xload_entries]; try reflexivity.
+  destruct (negb (validate_certificates cs)); [reflexivity|].
+  destruct (tsa && negb (forallb is_root_ca cs)); [reflexivity|]. apply IH.
 Qed.
 
-(* GetCertificates cannot tell an "other" file from a regular one *)
-Theorem xget_erase root ty name :
-  xget_certificates root ty name = get_certificates is_valid_file_name (erase root) ty name.
-Proof.
-  unfold xget_certificates, get_certificates.
-  destruct (negb (is_valid_store_type ty)); [reflexivity|].
-  destruct (negb (is_valid_file_name name)); [reflexivity|].
-  destruct (sys_path ty name) as [p|]; [|reflexivity].
-  rewrite lstat_erase. destruct (xlstat root p) as [| |[c|es|t|c]]; cbn [erase_lres]; try reflexivity.
-  - rewrite erase_dir. symmetry. apply load_erase.
-  - destruct t; reflexivity.
-Qed.
-
-(* ---------- the declarative reading over the larger alphabet ---------- *)
-
-(* an entry the loop reads and accepts: a regular OR other file holding >= 1 acceptable certificates *)
-Definition xentry_read_good (tsa : bool) (e : string * xnode) : Prop :=
-  exists cs, (snd e = XFile (CCerts cs) \/ snd e = XOther (CCerts cs)) /\ cs <> [] /\ Forall (cert_ok tsa) cs.
+Lemma strict_entries_app a b : strict_entries (a ++ b) = strict_entries a ++ strict_entries b.
+Proof. induction a as [|[k m] a IH]; [reflexivity|]. cbn [app strict_entries]. now rewrite IH. Qed.
 
 (* the property's wording: a regular file holding >= 1 acceptable certificates *)
 Definition xentry_good (tsa : bool) (e : string * xnode) : Prop :=
@@ -177,11 +235,161 @@ Definition xentry_good (tsa : bool) (e : string * xnode) : Prop :=
 
 Definition xcerts_of_entry (e : string * xnode) : list cert :=
   match snd e with
-  | XFile (CCerts cs) | XOther (CCerts cs) => cs
+  | XFile (CCerts cs) => cs
   | _ => []
   end.
 
 Definition is_other (n : xnode) : Prop := exists c, n = XOther c.
+
+(* the declarative reading of the property over the larger alphabet *)
+Definition xloadable (root : xnode) (ty name : string) (l : list cert) : Prop :=
+  known_type ty /\ plain_name name /\
+  exists es, xlstat root (store_path ty name) = XLNode (XDir es) /\
+             Forall (xentry_good (is_tsa ty)) es /\
+             l = flat_map xcerts_of_entry es /\ l <> [].
+
+Definition xentry_fault (tsa : bool) (n : xnode) : ekind :=
+  match n with
+  | XDir _ | XLink _ | XOther _ => KEntryKind
+  | XFile CErr => KRead
+  | XFile (CCerts cs) => if validate_certificates cs then KNotRoot else KValidate
+  end.
+
+Lemma entry_good_strict tsa k m : entry_good tsa (k, strict_node m) <-> xentry_good tsa (k, m).
+Proof.
+  unfold entry_good, xentry_good. cbn [snd]. split.
+  - intros (cs & E & N & F). exists cs. split; [|auto].
+    destruct m as [c|es|[t|]|c]; unfold strict_node in E; try rewrite erase_dir in E; cbn [erase] in E;
+      try discriminate. inversion E; subst; auto.
+  - intros (cs & E & N & F); subst m; exists cs; cbn; auto.
+Qed.
+
+Lemma Forall_strict tsa es :
+  Forall (entry_good tsa) (strict_entries es) <-> Forall (xentry_good tsa) es.
+Proof.
+  induction es as [|[k m] es IH]; cbn [strict_entries].
+  - split; constructor.
+  - split; intros H; inversion H; subst; constructor;
+      try (apply entry_good_strict; assumption); apply IH; assumption.
+Qed.
+
+Lemma certs_strict es : flat_map certs_of_entry (strict_entries es) = flat_map xcerts_of_entry es.
+Proof.
+  induction es as [|[k m] es IH]; [reflexivity|]. cbn [strict_entries flat_map]. rewrite IH. f_equal.
+  unfold certs_of_entry, xcerts_of_entry, strict_node. cbn [snd].
+  destruct m as [[|cs]|es0|[t|]|c]; try rewrite erase_dir; reflexivity.
+Qed.
+
+Lemma fault_strict tsa n : entry_fault tsa (strict_node n) = xentry_fault tsa n.
+Proof. destruct n as [[|cs]|es0|[t|]|c]; unfold strict_node; try rewrite erase_dir; reflexivity. Qed.
+
+Lemma xload_entries_ok tsa es acc l :
+  xload_entries tsa es acc = Loaded l <->
+  Forall (xentry_good tsa) es /\ l = acc ++ flat_map xcerts_of_entry es /\ l <> [].
+Proof. rewrite <- load_strict, load_entries_ok, Forall_strict, certs_strict. reflexivity. Qed.
+
+(* success, with exactly the certificates of the named store, iff the store is
+   loadable: every entry a REGULAR file, over the larger alphabet, no restriction *)
+Theorem xget_iff root ty name l :
+  xget_certificates root ty name = Loaded l <-> xloadable root ty name l.
+Proof.
+  unfold xloadable, xget_certificates. split.
+  - intros H.
+    destruct (is_valid_store_type ty && is_valid_file_name name) eqn:V.
+    2:{ destruct (xget_invalid xload_entries root ty name V) as (k & E). congruence. }
+    apply andb_true_iff in V. destruct V as [Ht Hn].
+    apply is_valid_store_type_spec in Ht. apply is_valid_file_name_spec in Hn.
+    rewrite xget_valid in H by assumption. split; [exact Ht|]. split; [exact Hn|].
+    destruct (xlstat root (store_path ty name)) as [| |[c|es|t|c]]; try discriminate.
+    exists es. split; [reflexivity|]. apply xload_entries_ok in H. exact H.
+  - intros (Ht & Hn & es & E & F & L & N). rewrite xget_valid by assumption. rewrite E.
+    apply xload_entries_ok. cbn [app]. auto.
+Qed.
+
+Theorem xall_or_nothing root ty name :
+  (exists l, xget_certificates root ty name = Loaded l /\ xloadable root ty name l) \/
+  (exists c k e, xget_certificates root ty name = Failed c k e /\ forall l, ~ xloadable root ty name l).
+Proof.
+  destruct (xget_certificates root ty name) as [l|c k e] eqn:E.
+  - left. exists l. split; [reflexivity | now apply xget_iff].
+  - right. exists c, k, e. split; [reflexivity|]. intros l L. apply xget_iff in L. congruence.
+Qed.
+
+(* clause 4 stated directly: on success EVERY entry of the store directory is a
+   regular file (none is a directory, a link, a FIFO, a socket or a device) *)
+Theorem xevery_entry_regular root ty name l es :
+  xget_certificates root ty name = Loaded l ->
+  xlstat root (store_path ty name) = XLNode (XDir es) ->
+  forall nm n, In (nm, n) es -> exists cs, n = XFile (CCerts cs) /\ cs <> [].
+Proof.
+  intros H E nm n Hin. apply xget_iff in H. destruct H as (_ & _ & es0 & E0 & F & _ & _).
+  rewrite E in E0. inversion E0; subst es0. rewrite Forall_forall in F.
+  destruct (F _ Hin) as (cs & Ecs & N & _). cbn [snd] in Ecs. eauto.
+Qed.
+
+(* one offending entry - of any kind - anywhere among good ones fails the store;
+   the error names the first offender *)
+Theorem xfirst_offender root ty name good nm n rest :
+  known_type ty -> plain_name name ->
+  xlstat root (store_path ty name) = XLNode (XDir (good ++ (nm, n) :: rest)) ->
+  Forall (xentry_good (is_tsa ty)) good -> ~ xentry_good (is_tsa ty) (nm, n) ->
+  xget_certificates root ty name = Failed ECertificate (xentry_fault (is_tsa ty) n) nm.
+Proof.
+  intros Ht Hn E F B. unfold xget_certificates. rewrite xget_valid by assumption. rewrite E.
+  rewrite <- load_strict, strict_entries_app. cbn [strict_entries]. rewrite <- fault_strict.
+  apply load_entries_first_bad; [now apply Forall_strict|]. intros G. apply B. now apply entry_good_strict.
+Qed.
+
+(* an other file is never opened: what a read of it would deliver is irrelevant *)
+Theorem xframe_entries r1 r2 ty name es1 es2 :
+  xlstat r1 (store_path ty name) = XLNode (XDir es1) ->
+  xlstat r2 (store_path ty name) = XLNode (XDir es2) ->
+  strict_entries es1 = strict_entries es2 ->
+  xget_certificates r1 ty name = xget_certificates r2 ty name.
+Proof.
+  intros E1 E2 S. unfold xget_certificates.
+  destruct (is_valid_store_type ty && is_valid_file_name name) eqn:V.
+  - apply andb_true_iff in V. destruct V as [Ht Hn].
+    apply is_valid_store_type_spec in Ht. apply is_valid_file_name_spec in Hn.
+    rewrite !xget_valid by assumption. rewrite E1, E2, <- !load_strict. now rewrite S.
+  - unfold xget_with. destruct (is_valid_store_type ty); cbn in *; [|reflexivity].
+    destruct (is_valid_file_name name); cbn in *; [discriminate | reflexivity].
+Qed.
+
+(* ========== the code before fix 351e8a6 ========== *)
+
+Lemma load_erase_v0 tsa es : forall acc,
+  load_entries tsa (erase_entries es) acc = xload_entries_v0 tsa es acc.
+Proof.
+  induction es as [|[nm n] es IH]; intros acc; [reflexivity|].
+  cbn [erase_entries]. destruct n as [[|cs]|es0|[m|]|[|cs]];
+    try rewrite erase_dir; cbn [erase load_entries xload_entries_v0]; try reflexivity;
+    (destruct (negb (validate_certificates cs)); [reflexivity|];
+     destruct (tsa && negb (forallb is_root_ca cs)); [reflexivity|]; apply IH).
+Qed.
+
+(* the old code could not tell an other file from a regular one *)
+Theorem xget_erase_v0 root ty name :
+  xget_certificates_v0 root ty name = get_certificates is_valid_file_name (erase root) ty name.
+Proof.
+  unfold xget_certificates_v0, xget_with, get_certificates.
+  destruct (negb (is_valid_store_type ty)); [reflexivity|].
+  destruct (negb (is_valid_file_name name)); [reflexivity|].
+  destruct (sys_path ty name) as [p|]; [|reflexivity].
+  rewrite lstat_erase. destruct (xlstat root p) as [| |[c|es|t|c]]; cbn [erase_lres]; try reflexivity.
+  - rewrite erase_dir. symmetry. apply load_erase_v0.
+  - destruct t; reflexivity.
+Qed.
+
+(* an entry the old loop read and accepted: a regular OR other file delivering >= 1 acceptable certificates *)
+Definition xentry_read_good (tsa : bool) (e : string * xnode) : Prop :=
+  exists cs, (snd e = XFile (CCerts cs) \/ snd e = XOther (CCerts cs)) /\ cs <> [] /\ Forall (cert_ok tsa) cs.
+
+Definition xcerts_read_of_entry (e : string * xnode) : list cert :=
+  match snd e with
+  | XFile (CCerts cs) | XOther (CCerts cs) => cs
+  | _ => []
+  end.
 
 Lemma entry_good_erase tsa k m : entry_good tsa (k, erase m) <-> xentry_read_good tsa (k, m).
 Proof.
@@ -201,32 +409,22 @@ Proof.
       try (apply entry_good_erase; assumption); apply IH; assumption.
 Qed.
 
-Lemma certs_erase es : flat_map certs_of_entry (erase_entries es) = flat_map xcerts_of_entry es.
+Lemma certs_erase es : flat_map certs_of_entry (erase_entries es) = flat_map xcerts_read_of_entry es.
 Proof.
   induction es as [|[k m] es IH]; [reflexivity|]. cbn [erase_entries flat_map]. rewrite IH. f_equal.
-  unfold certs_of_entry, xcerts_of_entry. cbn [snd].
+  unfold certs_of_entry, xcerts_read_of_entry. cbn [snd].
   destruct m as [[|cs]|es0|[t|]|[|cs]]; try rewrite erase_dir; reflexivity.
 Qed.
 
-Lemma lstat_erase_dir root p es' :
-  lstat (erase root) p = LNode (NDir es') <->
-  exists es, xlstat root p = XLNode (XDir es) /\ es' = erase_entries es.
-Proof.
-  rewrite lstat_erase. split.
-  - destruct (xlstat root p) as [| |[c|es|[t|]|c]]; cbn [erase_lres]; try rewrite erase_dir; cbn [erase];
-      try discriminate. intros E. inversion E. eauto.
-  - intros (es & -> & ->). cbn [erase_lres]. now rewrite erase_dir.
-Qed.
-
-(* full characterisation of success over the larger alphabet *)
-Theorem xget_iff root ty name l :
-  xget_certificates root ty name = Loaded l <->
+(* full characterisation of success of the old code over the larger alphabet *)
+Theorem xget_iff_v0 root ty name l :
+  xget_certificates_v0 root ty name = Loaded l <->
   known_type ty /\ plain_name name /\
   exists es, xlstat root (store_path ty name) = XLNode (XDir es) /\
              Forall (xentry_read_good (is_tsa ty)) es /\
-             l = flat_map xcerts_of_entry es /\ l <> [].
+             l = flat_map xcerts_read_of_entry es /\ l <> [].
 Proof.
-  rewrite xget_erase, get_certificates_iff. unfold loadable. split.
+  rewrite xget_erase_v0, get_certificates_iff. unfold loadable. split.
   - intros (Ht & Hn & es' & E & F & L & N). split; [exact Ht|]. split; [exact Hn|].
     apply lstat_erase_dir in E. destruct E as (es & E & ->). exists es. split; [exact E|].
     split; [now apply Forall_erase|]. split; [now rewrite <- certs_erase | exact N].
@@ -235,36 +433,94 @@ Proof.
     split; [now apply Forall_erase|]. split; [now rewrite certs_erase | exact N].
 Qed.
 
-(* within the property's alphabet (no "other" file among the entries of the
-   named store) the property's wording holds: every entry is a regular file *)
-Theorem xget_regular root ty name l es :
-  xget_certificates root ty name = Loaded l ->
+(* the old code met the property's wording only when the store held no other file *)
+Theorem xget_regular_v0 root ty name l es :
+  xget_certificates_v0 root ty name = Loaded l ->
   xlstat root (store_path ty name) = XLNode (XDir es) ->
   (forall e, In e es -> ~ is_other (snd e)) ->
   Forall (xentry_good (is_tsa ty)) es.
 Proof.
-  intros H E A. apply xget_iff in H. destruct H as (_ & _ & es0 & E0 & F & _ & _).
+  intros H E A. apply xget_iff_v0 in H. destruct H as (_ & _ & es0 & E0 & F & _ & _).
   rewrite E in E0. inversion E0; subst es0. rewrite Forall_forall in *. intros e He.
   destruct (F e He) as (cs & [Ec|Ec] & N & Fc).
   - exists cs. auto.
   - exfalso. apply (A e He). exists (CCerts cs). exact Ec.
 Qed.
 
-(* outside it the wording "every entry is a regular file" is false of the code:
-   a store whose only entry is an "other" file delivering a certificate loads *)
+(* without that hypothesis the wording "every entry is a regular file" was false
+   of the old code: a store whose only entry is an other file delivering a
+   certificate loaded (replayed on the real code: harness family special-entry,
+   finding fixed by 351e8a6); the present code refuses the same store *)
 Definition xex_cert : cert := mk_cert 1 true true true true.
 Definition xex_tree : xnode :=
   XDir [("truststore", XDir [("x509", XDir [("ca", XDir [("s", XDir [("pipe", XOther (CCerts [xex_cert]))])])])])].
 
-Lemma regular_only_refuted :
+Lemma regular_only_v0_refuted :
   exists root ty name l es,
-    xget_certificates root ty name = Loaded l /\ l <> [] /\
+    xget_certificates_v0 root ty name = Loaded l /\ l <> [] /\
     xlstat root (store_path ty name) = XLNode (XDir es) /\
-    ~ Forall (fun e => exists c, snd e = XFile c) es.
+    ~ Forall (fun e => exists c, snd e = XFile c) es /\
+    xget_certificates root ty name = Failed ECertificate KEntryKind "pipe".
 Proof.
   exists xex_tree, "ca", "s", [xex_cert], [("pipe", XOther (CCerts [xex_cert]))].
-  split; [reflexivity|]. split; [discriminate|]. split; [reflexivity|].
+  split; [reflexivity|]. split; [discriminate|]. split; [reflexivity|]. split; [|reflexivity].
   intros F. inversion F as [|x l0 (c & E) _]; subst. discriminate.
+Qed.
+
+(* ========== old and new code, base model ========== *)
+
+Definition is_otherb (n : xnode) : bool := match n with XOther _ => true | _ => false end.
+Definition has_other (es : list (string * xnode)) : bool := existsb (fun e => is_otherb (snd e)) es.
+
+Lemma strict_is_erase es : has_other es = false -> strict_entries es = erase_entries es.
+Proof.
+  induction es as [|[k m] es IH]; [reflexivity|]. unfold has_other. cbn [existsb snd strict_entries erase_entries].
+  intros H. apply orb_false_iff in H. destruct H as [Hm Hes]. rewrite (IH Hes). f_equal. f_equal.
+  destruct m; try reflexivity. discriminate.
+Qed.
+
+Lemma has_other_In es : has_other es = true <-> exists nm c, In (nm, XOther c) es.
+Proof.
+  unfold has_other. rewrite existsb_exists. split.
+  - intros ([nm n] & Hin & H). cbn [snd] in H. destruct n; try discriminate. eauto.
+  - intros (nm & c & Hin). exists (nm, XOther c). split; [exact Hin | reflexivity].
+Qed.
+
+(* whether the named store directory holds an other file *)
+Definition store_has_other (root : xnode) (ty name : string) : bool :=
+  match xlstat root (store_path ty name) with
+  | XLNode (XDir es) => has_other es
+  | _ => false
+  end.
+
+(* where the named store holds no other file (in particular on every tree of the
+   property's alphabet) the present code, the old code and the base model agree *)
+Theorem xget_conservative root ty name :
+  store_has_other root ty name = false ->
+  xget_certificates root ty name = get_certificates is_valid_file_name (erase root) ty name /\
+  xget_certificates root ty name = xget_certificates_v0 root ty name.
+Proof.
+  intros H. assert (G : xget_certificates root ty name = xget_certificates_v0 root ty name).
+  { unfold xget_certificates, xget_certificates_v0.
+    destruct (is_valid_store_type ty && is_valid_file_name name) eqn:V.
+    - apply andb_true_iff in V. destruct V as [Ht Hn].
+      apply is_valid_store_type_spec in Ht. apply is_valid_file_name_spec in Hn.
+      rewrite !xget_valid by assumption. unfold store_has_other in H.
+      destruct (xlstat root (store_path ty name)) as [| |[c|es|t|c]]; try reflexivity.
+      rewrite <- load_strict, <- load_erase_v0. now rewrite strict_is_erase.
+    - unfold xget_with. destruct (is_valid_store_type ty); cbn in *; [|reflexivity].
+      destruct (is_valid_file_name name); cbn in *; [discriminate | reflexivity]. }
+  split; [rewrite G; apply xget_erase_v0 | exact G].
+Qed.
+
+(* a store that holds an other file never loads *)
+Theorem xother_fails root ty name :
+  store_has_other root ty name = true -> forall l, xget_certificates root ty name <> Loaded l.
+Proof.
+  unfold store_has_other. intros H l L.
+  destruct (xlstat root (store_path ty name)) as [| |[c|es|t|c]] eqn:E; try discriminate.
+  apply has_other_In in H. destruct H as (nm & c & Hin).
+  destruct (xevery_entry_regular root ty name l es L E nm _ Hin) as (cs & Ecs & _). discriminate.
 Qed.
 
 (* ---------- cases of the harness: base alphabet and larger alphabet in one list ---------- *)
@@ -274,6 +530,81 @@ Definition xmodel (i : xinput) : obs := obs_of (xget_certificates (xi_root i) (x
 Definition erase_input (i : xinput) : input := mk_input (xi_ty i) (xi_name i) (erase (xi_root i)).
 Record xcase := mk_xcase { xc_id : N; xc_in : xinput; xc_obs : obs }.
 
+(* Some l: the named store is loadable (every entry a regular file ...) and holds exactly l *)
+Definition xexpected (i : xinput) : option (list cert) :=
+  if store_has_other (xi_root i) (xi_ty i) (xi_name i) then None else expected (erase_input i).
+
+(* the property oracle over the larger alphabet, on observations only *)
+Definition xspec_ok (i : xinput) (o : obs) : bool :=
+  match xexpected i, o with
+  | Some l, OOk ids => same_ids ids (map ct_id l) && negb (Nat.eqb (List.length ids) 0)
+  | None, OErr _ _ _ => true
+  | _, _ => false
+  end.
+
+(* footprints as in C13_Model.fp *)
+Definition xfp (i : xinput) (o : obs) : N :=
+  if xspec_ok i o then 0%N else
+  match xexpected i, o with
+  | None, OOk _ => 1
+  | Some _, OErr _ _ _ => 2
+  | Some _, OOk _ => 3
+  | None, OErr _ _ _ => 0
+  end%N.
+
+Lemma Forall_good_no_other tsa es :
+  Forall (xentry_good tsa) es <-> has_other es = false /\ Forall (xentry_read_good tsa) es.
+Proof.
+  split.
+  - intros F. split.
+    + destruct (has_other es) eqn:H; [|reflexivity]. apply has_other_In in H. destruct H as (nm & c & Hin).
+      rewrite Forall_forall in F. destruct (F _ Hin) as (cs & E & _). discriminate.
+    + rewrite Forall_forall in *. intros e He. destruct (F e He) as (cs & E & N & Fc). exists cs. auto.
+  - intros [H F]. rewrite Forall_forall in *. intros e He. destruct (F e He) as (cs & [E|E] & N & Fc).
+    + exists cs. auto.
+    + exfalso. assert (T : has_other es = true).
+      { apply has_other_In. destruct e as [nm n]. cbn [snd] in E. subst n. eauto. }
+      congruence.
+Qed.
+
+Lemma certs_read_no_other es : has_other es = false -> flat_map xcerts_read_of_entry es = flat_map xcerts_of_entry es.
+Proof.
+  induction es as [|[k m] es IH]; [reflexivity|]. unfold has_other. cbn [existsb snd flat_map].
+  intros H. apply orb_false_iff in H. destruct H as [Hm Hes]. rewrite (IH Hes). f_equal.
+  destruct m as [[|cs]|?|?|?]; try reflexivity. discriminate.
+Qed.
+
+Lemma xexpected_spec i l :
+  xexpected i = Some l <-> xloadable (xi_root i) (xi_ty i) (xi_name i) l.
+Proof.
+  unfold xexpected, xloadable, store_has_other. split.
+  - destruct (xlstat (xi_root i) (store_path (xi_ty i) (xi_name i))) as [| |[c|es|t|c]] eqn:E;
+      try (intros H; apply expected_spec in H; destruct H as (_ & _ & es' & E' & _);
+           cbn [erase_input i_root i_ty i_name] in E'; apply lstat_erase_dir in E'; destruct E' as (es0 & E0 & _); congruence).
+    destruct (has_other es) eqn:O; [discriminate|].
+    intros H. apply expected_spec in H. destruct H as (Ht & Hn & es' & E' & F & L & N).
+    cbn [erase_input i_root i_ty i_name] in *. apply lstat_erase_dir in E'. destruct E' as (es0 & E0 & ->).
+    rewrite E in E0. inversion E0; subst es0. split; [exact Ht|]. split; [exact Hn|].
+    exists es. split; [reflexivity|]. split; [apply Forall_good_no_other; split; [exact O | now apply Forall_erase]|].
+    split; [|exact N]. now rewrite L, certs_erase, certs_read_no_other.
+  - intros (Ht & Hn & es & E & F & L & N). rewrite E.
+    apply Forall_good_no_other in F. destruct F as [O F]. rewrite O.
+    apply expected_spec. cbn [erase_input i_root i_ty i_name]. split; [exact Ht|]. split; [exact Hn|].
+    exists (erase_entries es). split; [apply lstat_erase_dir; eauto|]. split; [now apply Forall_erase|].
+    split; [|exact N]. now rewrite L, certs_erase, certs_read_no_other.
+Qed.
+
+Lemma xmodel_xspec_ok i : xspec_ok i (xmodel i) = true.
+Proof.
+  unfold xspec_ok, xmodel.
+  destruct (xget_certificates (xi_root i) (xi_ty i) (xi_name i)) as [l|c k e] eqn:E; cbn [obs_of].
+  - apply xget_iff in E. pose proof E as (_ & _ & _ & _ & _ & _ & N).
+    apply xexpected_spec in E. rewrite E. rewrite same_ids_refl. cbn [andb].
+    destruct l; [congruence | reflexivity].
+  - destruct (xexpected i) as [l|] eqn:X; [|reflexivity].
+    apply xexpected_spec in X. apply xget_iff in X. congruence.
+Qed.
+
 Inductive gcase := GB (c : case) | GX (c : xcase).
 
 Definition gid (g : gcase) : N := match g with GB c => c_id c | GX c => xc_id c end.
@@ -281,24 +612,6 @@ Definition gagree (g : gcase) : bool :=
   match g with
   | GB c => obs_eqb (model (c_in c)) (c_obs c)
   | GX c => obs_eqb (xmodel (xc_in c)) (xc_obs c)
-  end.
-(* a case over the larger alphabet is judged as follows: returned certificates
-   must be exactly those of the store read with "regular file" widened to "file
-   that is neither a directory nor a link" (nothing from elsewhere, no partial
-   set); an error is accepted when the store is not loadable in the property's
-   literal reading, i.e. also whenever an entry of the store is an other file -
-   an implementation that refuses FIFOs is not reported as violating the property *)
-Definition is_otherb (n : xnode) : bool := match n with XOther _ => true | _ => false end.
-Definition store_has_other (i : xinput) : bool :=
-  match xlstat (xi_root i) (store_path (xi_ty i) (xi_name i)) with
-  | XLNode (XDir es) => existsb (fun e => is_otherb (snd e)) es
-  | _ => false
-  end.
-Definition xspec_ok (i : xinput) (o : obs) : bool :=
-  match o with
-  | OOk _ => spec_ok (erase_input i) o
-  | OErr _ _ _ =>
-      store_has_other i || match expected (erase_input i) with None => true | Some _ => false end
   end.
 Definition gok (g : gcase) : bool :=
   match g with
@@ -308,7 +621,7 @@ Definition gok (g : gcase) : bool :=
 Definition gfp (g : gcase) : N :=
   match g with
   | GB c => fp (c_in c) (c_obs c)
-  | GX c => fp (erase_input (xc_in c)) (xc_obs c)
+  | GX c => xfp (xc_in c) (xc_obs c)
   end.
 
 Definition grun (cs : list gcase) : list (N * N * N) := run_cases gid gagree gok gfp cs.
@@ -319,19 +632,3 @@ Proof.
   unfold grun, run, run_cases. induction cs as [|c cs IH]; [reflexivity|].
   cbn [map flat_map]. now rewrite IH.
 Qed.
-
-Lemma xmodel_erase i : xmodel i = model (erase_input i).
-Proof. unfold xmodel, model, load, erase_input. cbn [i_root i_ty i_name]. now rewrite xget_erase. Qed.
-
-Lemma xmodel_spec_ok i : spec_ok (erase_input i) (xmodel i) = true.
-Proof. rewrite xmodel_erase. now apply model_spec_ok. Qed.
-
-Lemma xmodel_xspec_ok i : xspec_ok i (xmodel i) = true.
-Proof.
-  pose proof (xmodel_spec_ok i) as H. unfold xspec_ok. destruct (xmodel i) as [ids|c k e]; [exact H|].
-  unfold spec_ok in H. destruct (expected (erase_input i)); [discriminate|]. apply orb_true_r.
-Qed.
-
-Lemma xmodel_meets_oracles i :
-  spec_ok (erase_input i) (xmodel i) = true /\ xspec_ok i (xmodel i) = true.
-Proof. split; [exact (xmodel_spec_ok i) | exact (xmodel_xspec_ok i)]. Qed.
